@@ -90,3 +90,8 @@ Definition rneg (r : rot) : rot := (fst r, negb (snd r)).
 Definition ract (r : rot) (v : vec3) : vec3 :=
   if snd r then vneg (qrot (fst r) v) else qrot (fst r) v.
 End Quat.
+
+(* Quaternion._positive_scalar (public to_axes_angles / to_rodrigues(frank=True)
+   choose the sign of the unit quaternion before calling the qu2ax kernel) *)
+Definition qpos {T} (O : Ops T) (q : quat (T:=T)) : quat (T:=T) :=
+  let '(a, _, _, _) := q in if o_ltb O a (o_ofZ O 0) then qneg O q else q.
